@@ -47,3 +47,7 @@ add("C05", "Hypothesis-generated (direction grid, radial text) pairs against the
     "Hundreds (thorough: 4 800) of generated position grids (three algorithms, N in 4..60 / 200, T in 2..6 radii in list / tuple / linspace / range syntax, non-uniform spacing): every cell volume (rtol 1e-10), every entry of the dense adjacency, border and distance matrices (exact pattern: radial +-n_o and same-shell spherical neighbours only; rtol 1e-9 plus the arc tolerance of C03) and the three sum rules are compared with the statement's formulas, with R_k from exact rational radii and area/arc/angle from vlib.geom.s2_voronoi rather than from the library.",
     "Trusted: numpy, fractions, the S^2 clipping oracle (self-tested).",
     "DESIGN.md section 5, C05")
+add("C06", "enumeration of (direction grid, radial grid) against an independent Euclidean Voronoi oracle (half-plane clipping of bisector planes, half-space intersection volumes)",
+    "Every N in 4..30 plus larger samples incl. 98/100/162 (thorough: every N in 4..100, 161-163, 200, 300) for three algorithms and seven radial grids with 1..4 radii: each cell volume vs the volume of the intersection of its bisector half spaces within the extended point set (rtol 1e-9), each reported border vs the area of the clipped bisector polygon (rtol 1e-7), each distance vs the Euclidean distance (1e-12), positivity, symmetry, pattern and entry order. Unbounded cells are detected by a 1e3-radius box. Known finding F8 (open cells of the sparsest direction grids) is matched by grid name and reported as KNOWN-FINDING; everything else alarms.",
+    "Trusted: numpy, own 2-D Sutherland-Hodgman clipper (self-tested on cubic and bcc lattices), scipy HalfspaceIntersection+ConvexHull for volumes (a different qhull route than the library's Voronoi).",
+    "DESIGN.md section 5, C06")
